@@ -28,6 +28,16 @@ PROPS = {
         'level_note': 'Trusted: Coq kernel + vm_compute, the harness. The wire clause (bare ACK / nothing on the wire) is covered by the datagram connection model of C05.',
         'explanation': 'Theorems: IsNoResponseCode model equals the RFC 7967 class/bit decision for every code and every value (unbounded), only bits 1,3,4 matter, other classes always pass, the response writer refuses exactly per the first No-Response option. Correspondence: exhaustive bit tables for all 256 codes x values 0..63, boundary/random 32-bit values, 16-bit codes, ResponseWriter.SetResponse over generated request option lists.',
     },
+    'C07': {
+        'run_vo': 'Stream/Run.vo', 'props_vo': 'Properties/C07.vo', 'level': 'proof',
+        'classes': {1: 'message-missing-altered-duplicated-or-reordered', 2: 'delivered-from-or-after-oversize-frame',
+                    3: 'oversize-frame-did-not-close-with-error', 4: 'kept-reading-after-oversize-header',
+                    5: 'error-on-stream-of-valid-frames'},
+        'trusted': ['hook tcp/coder/export_stream_verif.go (build tag verif) exposing messageMaxLen to gen'],
+        'assumptions': ['uint32 arithmetic of DecodeHeader modelled in Z with explicit mod 2^32',
+                        'the goroutine hand-off from the receive queue to the handler is C11\'s subject: the harness keeps the connection open (on-close callback) until every accepted message was dispatched'],
+        'level_text': 'TODO', 'level_note': 'TODO', 'explanation': 'TODO',
+    },
 }
 
 NOT_APPLICABLE = {}
